@@ -276,7 +276,7 @@ pub fn real_interrupt(cpu: &mut Cpu, v: u8) -> RealOutcome {
 pub fn model_interrupt(r: &mut Regs, mem: &mut Mem, v: u8) -> Step {
     use crate::refmodel::decode::Insn;
     use crate::refmodel::exec::{exception_entry, Cycles, I, UI};
-    let mut st = Step { insn: Insn::undef(), outcome: Outcome::Unjudged("?"), ccr_unjudged: 0, mem_unjudged: vec![], ea: None };
+    let mut st = Step { insn: Insn::undef(), outcome: Outcome::Unjudged("?"), ccr_unjudged: 0, mem_unjudged: vec![], ea: None, reg_unjudged: 0, overlap: false, label: Some("interrupt entry") };
     if r.ccr & I != 0 {
         // masked: nothing may change (the request stays pending)
         st.outcome = Outcome::Ok(Cycles::default());
@@ -438,6 +438,9 @@ impl Lock {
         match (&step.outcome, &real) {
             (Outcome::Ok(cyc), RealOutcome::Ok(states)) => {
                 for i in 0..8 {
+                    if step.reg_unjudged & (1 << i) != 0 {
+                        continue;
+                    }
                     if regs.er[i] != real_after.er[i] {
                         diffs.push(Diff::Reg { i: i as u8, real: real_after.er[i], model: regs.er[i] });
                     }
@@ -662,6 +665,9 @@ impl Sess {
         match (&step.outcome, &real) {
             (Outcome::Ok(cyc), RealOutcome::Ok(states)) => {
                 for i in 0..8 {
+                    if step.reg_unjudged & (1 << i) != 0 {
+                        continue;
+                    }
                     if regs.er[i] != real_after.er[i] {
                         diffs.push(Diff::Reg { i: i as u8, real: real_after.er[i], model: regs.er[i] });
                     }
